@@ -1,7 +1,7 @@
 /-
   Driver.ConcGrow — line protocol for the C18 model (Model/Grow.lean):
 
-    gstatus                                   -> rul <0|1> lostupdate <0|1> wrapzero <0|1> sizerace <0|1> allocsize <n> rulrepaired <0|1>
+    gstatus                                   -> rul <0|1> lostupdate <0|1> wrapzero <0|1> sizerace <0|1> allocsize <n> rulrepaired <0|1> rulsize <0|1>
     gsteps gen|repaired                       -> the step list in the syntax gen_memfuncs.py emits, `;`-separated
     gsched <gen|repaired> <init> <max> <shared> <schedule> <op>…    op = g<delta> | s
                                               -> ret <v|->… pages <p> size <s> [blocked <t>]…   (same as grow_sched.c)
@@ -47,6 +47,7 @@ def stepStr : MStep → String
 def progOf : String → Option (List MStep)
   | "gen" => some Gen.growSteps
   | "repaired" => some repairedSteps
+  | "size" => some Gen.sizeSteps
   | _ => none
 
 def b01 (b : Bool) : String := if b then "1" else "0"
@@ -70,9 +71,9 @@ def gsched (prog : List MStep) (init max : Nat) (shared : Bool) (schedule : Stri
   let n := ops.length
   let cfg : Cfg :=
     { imm := { maxPages := max, shared := shared },
-      prog := fun t => match ops[t]? with | some (true, _) => prog | _ => sizeSteps,
+      prog := fun t => match ops[t]? with | some (true, _) => prog | _ => Gen.sizeSteps,
       arg := fun t => match ops[t]? with | some (_, d) => d | none => 0,
-      isGrow := fun t => match ops[t]? with | some (g, _) => g | none => false }
+      isGrow := fun t => match ops[t]? with | some _ => true | none => false }   -- memory.size = a linearized operation too
   let sch := schedule.toList.filterMap (fun c => if c.isDigit then some (c.toNat - '0'.toNat) else none)
   let sch := sch.filter (· < n)
   let r := runSegments cfg sch (initState cfg (allocMem init max shared)) []
@@ -96,7 +97,7 @@ def gseq (prog : List MStep) (init max : Nat) (shared : Bool) (deltas : List Nat
 def cmd (ws : List String) : Option String :=
   match ws with
   | ["gstatus"] =>
-    some s!"rul {b01 (ReadsUnderLock Gen.growSteps)} lostupdate {b01 (lostUpdateCheck Gen.growSteps)} wrapzero {b01 (wrapZeroCheck Gen.growSteps)} sizerace {b01 (sizeRaceCheck Gen.growSteps)} allocsize {(allocMem 1 65536 true).size} rulrepaired {b01 (ReadsUnderLock repairedSteps)}"
+    some s!"rul {b01 (ReadsUnderLock Gen.growSteps)} lostupdate {b01 (lostUpdateCheck Gen.growSteps)} wrapzero {b01 (wrapZeroCheck Gen.growSteps)} sizerace {b01 (sizeRaceCheck Gen.growSteps)} allocsize {(allocMem 1 65536 true).size} rulrepaired {b01 (ReadsUnderLock repairedSteps)} rulsize {b01 (ReadsUnderLock Gen.sizeSteps)}"
   | ["gsteps", p] =>
     match progOf p with
     | some prog => some ("; ".intercalate (prog.map stepStr))
